@@ -21,12 +21,17 @@ RULE = ("a case is a call history on ONE FFT object (`fft <f64|f32> ; op ; … ;
         "out-of-envelope products are compared with the Lean IEEE model in a separate diagnostic pass recorded in the evidence "
         "(`diagnostic_float_bits_impl_vs_lean_model`), never a verdict. Generators: every length pair 1..=40 x 1..=40; lengths 2^k-1, 2^k, "
         "2^k+1 against 1,2,3,33, against each other and every split with |a|+|b|-1 in {2^k-1..2^k+2}, k <= 12 (quick) / 17 (thorough); "
-        "random structured lengths; 8 coefficient patterns scaled to max^2*max(len) = bound; cyclic wrap-around; destinations shorter / "
+        "random structured lengths; 8 coefficient patterns scaled to max^2*min(len) = bound; cyclic wrap-around; destinations shorter / "
         "equal / longer than the written prefix, than n and than 2n; histories fresh / larger / smaller / same / interleaved; far outside "
         "the envelope (incl. f32 above length 1000, where no non-zero coefficient fits the f32 envelope) only history independence is "
-        "specified; the region BETWEEN the envelopes (max^2*min(len) <= bound < max^2*max(len)) is SAMPLED on every run (about 100 "
-        "single-call cases, ratios 1:2 .. 1:8192, ramp / constant / random / alternating operands, both float types): failures there are "
-        "the known finding F10 (predicate known_match, counts in `between_envelopes_sampled`), failures anywhere else are violations. "
+        "specified. ALL streams are generated AT the literal envelope max^2*min(len) = bound, however unbalanced the lengths (since the "
+        "repair of finding F11 multiply_into multiplies a much longer operand block by block - blocks of the shorter operand's length, "
+        "by recursive calls - so the whole literal envelope is exact); stream `unbalanced`: 1 x 4096, 2 x 8192, 7 x 1000, 16 x 8192, "
+        "lengths at the switch long > 2*short (33 x 66 / 67, 100 x 200 / 201), ragged last blocks, ragged blocks that split again in the "
+        "recursive call (7 x 1003, 16 x 645), both operand orders, multiply and multiply_into with destinations that are empty, shorter "
+        "than a block, one before / exactly at / one after a block boundary (first, middle, last block), inside a block, around the "
+        "product length (histogram `blocks:*`, `dest:block-relative`); the former F11 inputs are replayed from corpus/C04.txt and any "
+        "inexact result inside the literal envelope is a VIOLATION (there is no known finding any more). "
         "non-trivial = distinct in-domain case whose last call carries at least 3 coefficients")
 ASSUMPTIONS = [
     "the Lean model of rlib_fft is hand-written; it is tied to the code by running both on the same call histories",
@@ -44,22 +49,25 @@ MANIFEST = {
              "(`stride_w`, `stride_rev`), fft_internal gives the same buffer on objects with any two histories (`fft_internal_table_indep`), "
              "every public call returns on a used object exactly what it returns on a brand-new one for ALL call histories incl. panicking "
              "calls (`call_history_independent`, `multiply_history_independent`, fft / fft_inv / forward-pointwise-inverse variants), "
-             "multiply has length |a|+|b|-1 or is empty, multiply_into ADDS the product on the common prefix (`multiply_into_adds`). "
+             "multiply has length |a|+|b|-1 or is empty, multiply_into ADDS the product on the common prefix (`multiply_into_adds`), "
+             "also through the block recursion for unbalanced operands (`multiply_into_blocks`: operands ordered by length, blocks of "
+             "the shorter operand's length multiplied by recursive calls into res[offset..], early break; what it adds does not "
+             "depend on the destination, `multiply_into_value_independent_of_destination`; termination of the recursion is proved). "
              "Level B, exact complex arithmetic (Mathlib ℂ, tw = e^{i*pi*i/cur}): the twiddle table is the roots of unity, fft_internal is "
              "the DFT / inverse DFT (iterative Cooley-Tukey over the bit-reversal table, `fft_internal_is_dft`), multiply returns and "
              "multiply_into adds exactly the integer convolution sum_{s+t=u} a_s b_t for all lengths and signs (`multiply_exact`, "
-             "`multiply_into_exact`; packing a+ib, conjugate-symmetry unpacking, half-size inverse), forward-pointwise-inverse = multiply "
+             "`multiply_into_exact`; packing a+ib, conjugate-symmetry unpacking, half-size inverse; the block recursion by additivity of "
+             "the convolution in the long operand, `conv_block_additive`, `conv_comm`, `multiply_blocks_exact`), forward-pointwise-inverse = multiply "
              "(`fft_mul_inv_eq_multiply`). The hand-written model is tied to rlib_fft by a differential run on every check."),
     "note": ("PARTIAL: NOT proved, only TESTED differentially on every run: that the IEEE-754 rounding error of this operation sequence "
              "(binary64 / binary32, libm sin/cos) stays below 0.5 inside the envelope, i.e. that the float instance rounds to the value the "
-             "exact instance is proved to have. Tested at the envelope boundary max^2*max(len) = 1e12 (f64) / 1e3 (f32) with 8 coefficient "
-             "patterns, all length pairs <= 40, lengths around every power of two up to 2^12 (quick) / 2^17 (thorough). The property's "
-             "literal envelope max^2*min(len) over-claims for very unbalanced operands (known finding F10: multiply is off by one or more "
-             "from length ratio about 1:1000 on, e.g. f64 [1000000] x 4096-term ramp, [707106,707106] x 8192 copies of 707106; f32 [31] x "
-             "8192-term ramp): the region between max^2*max(len) and max^2*min(len) is sampled on every run (about 100 shapes) and failures "
-             "of a single multiply / multiply_into call on a fresh object there are reported as the one KNOWN-FINDING; in this run-sampled "
-             "region the claim is therefore only 'no failure other than F10'; mildly unbalanced pairs (1:2..1:8) in it were exact in "
-             "every run. Fixed finding F9 (fft_inv on a fresh object, /repo 3d98b12) is replayed from corpus/C04.txt. "
+             "exact instance is proved to have. Tested at the envelope boundary max^2*min(len) = 1e12 (f64) / 1e3 (f32) with 8 coefficient "
+             "patterns, all length pairs <= 40, lengths around every power of two up to 2^12 (quick) / 2^17 (thorough), and very unbalanced "
+             "lengths (1 x 4096 ... 16 x 8192 quick, up to 1 x 65536 thorough): that is the property's LITERAL envelope. Finding F11 (multiply off by one for very unbalanced operands inside the literal "
+             "envelope, e.g. f64 [1000000] x 4096-term ramp, [707106,707106] x 8192 copies of 707106; f32 [31] x 8192-term ramp) is "
+             "REPAIRED in rlib (multiply_into splits the longer operand into blocks of the shorter one's length); its inputs are replayed "
+             "from corpus/C04.txt and must be exact; there is no known finding left for C04. Fixed finding F9 (fft_inv on a fresh "
+             "object, /repo 3d98b12) is replayed from corpus/C04.txt. "
              "Trusted: Lean kernel, axioms propext/Classical.choice/Quot.sound, Mathlib, the hand-written model (checked against the code "
              "on the generated histories, raw comparison includes bit patterns of fft() outputs), Lean Float/Float32 = IEEE, harness, driver."),
     "technique": "Lean 4 proof of a hand-written model polymorphic in the arithmetic (all arithmetics + exact ℂ) + differential correspondence check against the Rust crate; rounding residue tested, not proved",
@@ -68,36 +76,6 @@ MANIFEST = {
 
 
 BOUNDS = {"f64": 10**12, "f32": 10**3}
-KNOWN_PREDICATE = "c04_unbalanced_between_envelopes"
-
-
-def _vec(tok):
-    return [] if tok in ("-", "") else [int(x) for x in tok.split(",")]
-
-
-def known_match(name, case):
-    """Known finding F10 as a predicate on the (shrunk) case line: the case is ONE multiply / multiply_into call on a
-    fresh object (no history at all) whose operands lie between the two envelopes:
-    max^2*min(len) <= bound (inside the property's literal envelope) and max^2*max(len) > bound."""
-    if name != KNOWN_PREDICATE:
-        return False
-    parts = [p.strip() for p in case.split(";")]
-    if len(parts) != 2:
-        return False
-    hdr, op = parts[0].split(), parts[1].split()
-    if len(hdr) != 2 or hdr[0] != "fft" or hdr[1] not in BOUNDS or not op:
-        return False
-    if not ((op[0] == "m" and len(op) == 3) or (op[0] == "mi" and len(op) == 4)):
-        return False
-    try:
-        a, b = _vec(op[1]), _vec(op[2])
-    except ValueError:
-        return False
-    if not a or not b:
-        return False
-    mx = max(max(abs(x) for x in a), max(abs(x) for x in b))
-    bound = BOUNDS[hdr[1]]
-    return mx * mx * min(len(a), len(b)) <= bound < mx * mx * max(len(a), len(b))
 
 
 def _table(src, name):
@@ -145,26 +123,28 @@ def extract(repo):
     return params, problems
 
 
-_between = {"sampled": 0, "failed": 0, "exact": 0}
-_outside = {"seen": 0}
+def _vec_len(tok):
+    return 0 if tok in ("-", "") else tok.count(",") + 1
+
+
+_blocks = {"cases": 0, "ratio>=1000": 0, "max_ratio": 0}
 
 
 def nontrivial(case, rec):
-    # (also used to count, per run, how the sampled in-between region behaved; reported by extra())
-    try:
-        if known_match(KNOWN_PREDICATE, case):
-            _between["sampled"] += 1
-            if rec["impl"] is not None and rec["model"] is not None and rec["impl"][1] == rec["model"][2]:
-                _between["exact"] += 1
-            else:
-                _between["failed"] += 1
-    except Exception:
-        pass
     last = case.split(";")[-1].split()
     if not last:
         return False
     if last[0] == "u":
         return False
+    if last[0] in ("m", "mi") and len(last) >= 3:
+        # (also counts, per run, the measured calls that take the block loop of multiply_into; reported by extra())
+        la, lb = _vec_len(last[1]), _vec_len(last[2])
+        if la and lb and max(la, lb) > 2 * min(la, lb):
+            _blocks["cases"] += 1
+            r = max(la, lb) // min(la, lb)
+            _blocks["max_ratio"] = max(_blocks["max_ratio"], r)
+            if r >= 1000:
+                _blocks["ratio>=1000"] += 1
     n = sum(0 if t == "-" else t.count(",") + 1 for t in last[1:3])
     return n >= 3
 
@@ -173,12 +153,13 @@ DIAG_OPS = ("f", "fi", "inv", "ii")
 
 
 def extra(ctx):
-    """(1) evidence: how many sampled in-between cases failed / were exact; (2) diagnostic, never a verdict: bit patterns
+    """(1) evidence: how many distinct measured multiply / multiply_into calls took the block loop (unbalanced operands);
+    (2) diagnostic, never a verdict: bit patterns
     of fft()/fft_into() outputs, fft_inv of arbitrary complex input and out-of-envelope products, implementation against the
     Lean IEEE model (C04_DIAG=1 makes both sides print full digests)."""
     import subprocess
     cov = ctx["coverage"]
-    cov["between_envelopes_sampled"] = dict(_between)
+    cov["unbalanced_block_loop_cases"] = dict(_blocks)
     diag = {"cases": 0, "agree": 0, "differ": 0, "first_difference": None}
     for pipe in ctx["pipes"]:
         cases_path = os.path.join(ctx["workdir"], f"cases.{pipe.profile}")
